@@ -388,6 +388,10 @@ async fn subscriber_recovers(addr: SocketAddr, certs: &Certs, bo: BackoffStrateg
 }
 
 async fn requestor_recovers(addr: SocketAddr, certs: &Certs, bo: BackoffStrategy, outages: usize, id: u64) -> std::result::Result<u64, V> {
+    requestor_recovers_t(addr, certs, bo, outages, id, 1500).await
+}
+
+async fn requestor_recovers_t(addr: SocketAddr, certs: &Certs, bo: BackoffStrategy, outages: usize, id: u64, request_timeout_ms: u64) -> std::result::Result<u64, V> {
     let inc = |e: String| V("INCONCLUSIVE".into(), e);
     let topic = format!("/c12req/top{}", id);
     let (_rc, echo) = raw_echo(addr, certs, &topic).await.map_err(|e| inc(e.to_string()))?;
@@ -396,7 +400,7 @@ async fn requestor_recovers(addr: SocketAddr, certs: &Certs, bo: BackoffStrategy
         .requestor(&topic)
         .with_request_encoder(StringCodec)
         .with_reply_decoder(StringCodec)
-        .with_request_timeout(1500u64)
+        .with_request_timeout(request_timeout_ms)
         .map_err(|e| inc(e.to_string()))?
         .open()
         .await
@@ -1259,6 +1263,17 @@ pub fn run(rep: &mut StageReport, tier: &str, _seed: u64) {
                 Err(_) => Err(V("INCONCLUSIVE".into(), "watchdog: scenario did not finish in 400 s".into())),
             };
             out.push((format!("recovery/{}", role_name), cfg, r));
+        }
+        // request timeout far shorter than the first backoff delay: the reconnect must still be carried out
+        // (a call may take longer than its reply timeout while the stream is being re-established)
+        {
+            let bo = BackoffStrategy::constant().with_max_attempts(3).with_step(Duration::from_millis(450));
+            let cfg = json!({"role": "requestor", "backoff": "constant 450 ms", "max_attempts": 3, "request_timeout_ms": 150, "outages": 2});
+            let r = match tokio::time::timeout(Duration::from_secs(400), requestor_recovers_t(server.addr, &certs.0, bo, 2, 77, 150)).await {
+                Ok(r) => r,
+                Err(_) => Err(V("INCONCLUSIVE".into(), "watchdog: scenario did not finish in 400 s".into())),
+            };
+            out.push(("recovery/requestor-short-timeout".to_string(), cfg, r));
         }
         // publisher with batching + compression across outages
         for k in 0..(if thorough { 4u64 } else { 2 }) {
